@@ -113,9 +113,44 @@ pub fn worker(case: &Value) -> Value {
                 }
             }
         }
+        "judged" => {
+            // a built-in called with a variable and, in a later argument, a FUNCTION that changes that variable through its
+            // by-reference parameter: the FUNCTION's final value is what the caller sees afterwards (the values are chosen
+            // so that the built-in's result does not depend on which value of the variable it reads)
+            for (text, want) in judged_programs() {
+                n += 1;
+                nontrivial += 1;
+                let o = run_pipeline(&text, &RunOpts::default());
+                if matches!(o.end, End::Normal) && o.stdout_str() == want {
+                    *hist.entry("judged: as expected".into()).or_insert(0) += 1;
+                } else {
+                    // what the known defect does, and nothing else: the built-in's result is right, the variable is back to "abc"
+                    let undone = matches!(o.end, End::Normal) && o.stdout_str() == want.replace("zbcd", "abc");
+                    let sig = if undone { "C03|judged|built-in FUNCTION call: the change a FUNCTION in a later argument made to the variable is undone" } else { "C03|judged|built-in call with a FUNCTION in a later argument: wrong output" };
+                    push_bad(&mut bads, sig.into(), format!("expected {:?} and a normal end, got {:?} and {}", want, o.stdout_str(), o.end.class()), text);
+                }
+            }
+        }
         other => return json!({"machinery": format!("unknown C03 case kind {}", other)}),
     }
     json!({"n": n, "nontrivial": nontrivial, "hist": hist, "bad": bads, "sample": sample, "states": states})
+}
+
+fn judged_programs() -> Vec<(String, String)> {
+    let chg = "FUNCTION Chg$ (S$)\n  S$ = \"z\" + MID$(S$, 2) + \"d\"\n  Chg$ = \"b\"\nEND FUNCTION\nFUNCTION Two% (S$)\n  S$ = \"z\" + MID$(S$, 2) + \"d\"\n  Two% = 2\nEND FUNCTION\n";
+    let head = "DECLARE FUNCTION Chg$ (S$)\nDECLARE FUNCTION Two% (S$)\n";
+    let mut v = vec![];
+    for (stmt, out) in [
+        ("P% = INSTR(A$, Chg$(A$))\nPRINT P%; A$", " 2 zbcd\r\n"),
+        ("PRINT MID$(A$, Two%(A$), 1); A$", "bzbcd\r\n"),
+        ("X$ = LEFT$(A$, 0) + Chg$(A$)\nPRINT X$; A$", "bzbcd\r\n"),
+        ("PRINT LEN(A$) * 0 + Two%(A$); A$", " 2 zbcd\r\n"),
+        ("PRINT INSTR(Two%(A$), A$, \"b\"); A$", " 2 zbcd\r\n"),
+        ("DIM R(1 TO 2) AS STRING\nR(1) = \"abc\"\nI% = 1\nPRINT MID$(R(I%), Two%(R(I%)), 1); R(1)", "bzbcd\r\n"),
+    ] {
+        v.push((format!("{}A$ = \"abc\"\n{}\nEND\n{}", head, stmt, chg), out.to_string()));
+    }
+    v
 }
 
 pub fn drive(tier: &str) -> i32 {
@@ -131,6 +166,7 @@ pub fn drive(tier: &str) -> i32 {
         cases.push(json!({"k": "args", "lo": lo, "hi": (lo + 25).min(total)}));
         lo += 25;
     }
+    cases.push(json!({"k": "judged", "lo": 0, "hi": 0}));
     let depth = if quick { 4 } else { 5 };
     let histories = history_count(depth);
     for in_sub in [false, true] {
